@@ -157,10 +157,9 @@ func checkC04(c *Ctx) {
 			for j := range wf {
 				want, got := wf[j], gf[j]
 				// A frame running deferred calls sits at a return site: compare the file only.
-				maskLine := false
-				if j > 0 && strings.Contains(wf[j-1].Fn, "zqdef") {
-					maskLine = true
-				}
+				// (also a frame at the closing "}()" of an immediately invoked literal); the generator
+				// marks such functions with "Zqnopos" in their name.
+				maskLine := strings.Contains(want.Fn, "Zqnopos") && !strings.Contains(want.Fn, "Zqnopos.func")
 				wp, gp := want.Pos, got.Pos
 				if maskLine {
 					wp, gp = wp[:strings.LastIndex(wp, ":")+1], gp[:strings.LastIndex(gp, ":")+1]
